@@ -25,6 +25,8 @@ type scenario struct {
 	SecondStrt bool   `json:"secondstart"` // a second start while the server runs
 	ConcShut   bool   `json:"concshut"`    // two Shutdown calls at once
 	LateSend   bool   `json:"latesend"`    // some requests are sent while the shutdown is in progress
+	Hijack     []bool `json:"hijack"`      // the handler hijacks the connection after its reply (zone-transfer style)
+	BlockNtfy  bool   `json:"blocknotify"` // NotifyStartedFunc blocks; meanwhile a second start and a ShutdownContext with an expiring ctx
 	Spare      bool   `json:"spare"`       // the value holds both fields: a spare PacketConn on the tcp server / a spare Listener on the packet server
 	FailFirst  int    `json:"failfirst"`   // 1: a start with nothing to serve on fails first; 2: a call that cannot succeed (ListenAndServe)
 	FailShut   bool   `json:"failshut"`    // ... then a Shutdown, which must be refused
@@ -43,6 +45,7 @@ func genScenario(mode string, r *rand.Rand) scenario {
 		sc.HClose = append(sc.HClose, mode == "tcp" && r.Intn(5) == 0)
 		sc.NoReply = append(sc.NoReply, r.Intn(2) == 0)
 		sc.CliClose = append(sc.CliClose, mode == "tcp" && r.Intn(5) == 0)
+		sc.Hijack = append(sc.Hijack, mode == "tcp" && r.Intn(5) == 0)
 	}
 	sc.Hold = r.Intn(2) == 0
 	sc.Ctx = sc.Hold && r.Intn(3) == 0
@@ -52,6 +55,7 @@ func genScenario(mode string, r *rand.Rand) scenario {
 	sc.LateSend = r.Intn(3) == 0
 	sc.Restart = mode == "tcp" && r.Intn(4) == 0
 	sc.Spare = r.Intn(3) == 0
+	sc.BlockNtfy = r.Intn(6) == 0
 	if r.Intn(3) == 0 {
 		sc.FailFirst = 1 + r.Intn(2)
 		sc.FailShut = r.Intn(2) == 0
@@ -78,8 +82,9 @@ func failedStart(w *World, sc *scenario) bool {
 	} else {
 		p = w.Start(true)
 	}
-	_, ok := w.Await(w.startCh[p])
+	res, ok := w.Await(w.startCh[p])
 	w.startDone[p] = true
+	w.CheckListeners(p, res, sc)
 	if sc.FailFirst == 1 {
 		w.FixConfig()
 	}
@@ -93,6 +98,39 @@ func failedStart(w *World, sc *scenario) bool {
 			w.Hang("ShutdownContext(after a failed start)", sc)
 			return false
 		}
+	}
+	return true
+}
+
+// notifyGeneration: NotifyStartedFunc is user code and may block.  The library runs it without srv.lock, so
+// meanwhile a second start is refused at once and a ShutdownContext honours its ctx.
+func notifyGeneration(w *World, sc *scenario, r *rand.Rand) bool {
+	w.BlockNotify()
+	defer w.ReleaseNotify()
+	p := w.Start(false)
+	select {
+	case <-w.started:
+	case <-time.After(waitLong):
+		w.Hang("ActivateAndServe(start)", sc)
+		return false
+	}
+	p2 := w.Start(false)
+	if _, ok := w.Await(w.startCh[p2]); !ok {
+		w.Hang("ActivateAndServe-while-NotifyStartedFunc-runs", sc)
+		return false
+	}
+	w.startDone[p2] = true
+	h := w.Shutdown()
+	jitter(r)
+	w.Expire(h)
+	if _, ok := w.Await(w.shutCh[h]); !ok {
+		w.Hang("ShutdownContext-while-NotifyStartedFunc-runs", sc)
+		return false
+	}
+	w.ReleaseNotify()
+	if _, ok := w.Await(w.startCh[p]); !ok {
+		w.Hang("ActivateAndServe", sc)
+		return false
 	}
 	return true
 }
@@ -138,7 +176,7 @@ func oneGeneration(w *World, sc *scenario, r *rand.Rand, first bool) (done bool)
 					continue
 				}
 				conns = append(conns, c)
-				w.SetBehaviour(sched.Role{Kind: "w", ID: c}, behaviour{hold: sc.Hold, reply: !(sc.HClose[i] && sc.NoReply[i]), close: sc.HClose[i]})
+				w.SetBehaviour(sched.Role{Kind: "w", ID: c}, behaviour{hold: sc.Hold, reply: !(sc.HClose[i] && sc.NoReply[i]), close: sc.HClose[i], hijack: sc.Hijack[i]})
 				n := sc.Reqs[i]
 				if sc.LateSend && n > 0 && r.Intn(2) == 0 {
 					late[c] = 1
@@ -269,10 +307,12 @@ func record(mode, out string, nruns int) {
 		if sc.FailFirst != 0 {
 			ok = failedStart(w, &sc)
 		}
-		if ok {
+		if ok && sc.BlockNtfy {
+			ok = notifyGeneration(w, &sc, r)
+		} else if ok {
 			ok = oneGeneration(w, &sc, r, true)
 		}
-		if ok && sc.Restart {
+		if ok && sc.Restart && !sc.BlockNtfy {
 			w.Census(sc, false) // nobody is inside a critical section: DEV3
 			w.SetListener()
 			if sc.FailFirst != 0 {
